@@ -132,39 +132,48 @@ def run(ctx):
     step = env.methods.get("step")
     disp = repo.find_class("Dispatcher")
     dispatch = repo.need_method(disp, "dispatch")
-    e2 = ctx.engine(relevant=lambda e: e.kind == "call" and dispatch in (e.data.get("targets") or []), max_depth=1)
-    defs = ctx.flow.defs(step)
-    for p in e2.paths(step, env):
-        if p.outcome != "return":
-            continue
-        ret = p.events[-1].data.get("value")
-        if not (isinstance(ret, ast.Tuple) and len(ret.elts) == 5):
-            raise AnalysisError("step does not return a 5-tuple literal")
-        rw = ret.elts[1]
-        src, stmt = rw, None
-        if isinstance(rw, ast.Name):
-            ds = defs.of(rw.id)
-            if len(ds) == 1:
-                src, stmt = ds[0][1], ds[0][2]
-        txt = ast.unparse(src)
-        if txt in ("self.reward_function.last_reward", "self.reward_function.rewards[-1]"):
+    e2 = ctx.engine(
+        relevant=lambda e: e.kind == "call" and (dispatch in (e.data.get("targets") or []) or e.data.get("attr") == "last_reward"),
+        max_depth=3,
+        inline_filter=lambda t: t.cls is not None and t.cls.qualname in env.mro,
+    )
+    sf = ctx.norm.flat(step)
+    defs = ctx.flow.defs(sf)
+    rets = [n for n in own_nodes(sf.node) if isinstance(n, ast.Return) and isinstance(n.value, ast.Tuple) and len(n.value.elts) == 5]
+    if not rets:
+        raise AnalysisError("step does not return a 5-tuple literal")
+    rw = rets[-1].value.elts[1]
+    src = ctx.norm.xexpr(sf, rw)
+    txt = ast.unparse(src)
+    if txt not in ("self.reward_function.last_reward", "self.reward_function.rewards[-1]"):
+        chk.violation(
+            "R13.b", step, rw,
+            f"step returns `{txt[:80]}` as reward, not the reward emitted for this step (reward_function.last_reward)",
+            loc=sf.loc(rw),
+        )
+    else:
+        n_paths = 0
+        bad = False
+        for p in e2.paths(step, env):
+            if p.outcome != "return":
+                continue
+            n_paths += 1
             i_d = next((i for i, e in enumerate(p.events) if e.kind == "call" and dispatch in (e.data.get("targets") or [])), None)
-            i_r = next((i for i, e in enumerate(p.events) if e.kind == "call" and e.data.get("property") and e.node is src), None)
+            i_r = next((i for i, e in enumerate(p.events) if e.kind == "call" and e.data.get("attr") == "last_reward" and e.data.get("property")), None)
             if i_d is None:
-                chk.violation("R13.b", step, None, "a returning step path never dispatches")
-            elif stmt is not None and i_r is not None and i_r < i_d:
-                chk.violation("R13.b", step, src, "the reward is read before the action is dispatched: step returns the previous step's reward", loc=step.loc(src))
-            elif stmt is not None and stmt.lineno < p.events[i_d].node.lineno:
-                chk.violation("R13.b", step, src, "the reward is read before the action is dispatched: step returns the previous step's reward", loc=step.loc(src))
-            else:
-                chk.ok("R13.b", step.qualname, step.loc(src), "reward = reward_function.last_reward after dispatch")
-        else:
-            chk.violation(
-                "R13.b", step, src,
-                f"step returns `{txt}` as reward, not the reward emitted for this step (reward_function.last_reward)",
-                loc=step.loc(src),
-            )
-        break
+                bad = True
+                chk.violation("R13.b", step, None, "a returning step path never dispatches", path=p.describe())
+                break
+            if i_r is not None and i_r < i_d:
+                bad = True
+                chk.violation(
+                    "R13.b", step, p.events[i_r].node,
+                    "the reward is read before the action is dispatched: step returns the previous step's reward",
+                    loc=p.events[i_r].loc,
+                )
+                break
+        if not bad and n_paths:
+            chk.ok("R13.b", step.qualname, step.loc(), "reward = reward_function.last_reward read after the dispatch")
 
     # ---------------------------------------------------------------- R13.c
     mk = repo.find_class("MakespanReward")
